@@ -5,6 +5,7 @@ package main
 import (
 	"fmt"
 	"go/token"
+	"go/types"
 	"strings"
 
 	"golang.org/x/tools/go/ssa"
@@ -226,6 +227,44 @@ func c18(p *Prog, r *Report) {
 		}
 		r.Check(okAll && n > 0, R5, "client NameKeyID = SHA-256(EncapKey.Marshal())", p.Pos(fn.Pos()), want, detail+", required "+want)
 	}
+	// ... and that is what the request carries: the value stored in the
+	// request's NameKeyID field by the client's request constructors is that
+	// hash of the name key argument, followed through the helpers it is
+	// obtained from (a memo or table in between is not the hash of THIS key)
+	for _, cn := range []string{"(~/tokens/type3.RateLimitedClient).CreateTokenRequest"} {
+		fn := anchor(p, r, R5, cn)
+		if fn == nil {
+			continue
+		}
+		keyParam := -1
+		for i, pa := range fn.Params {
+			if strings.HasSuffix(pa.Type().String(), "tokens/type3.EncapKey") {
+				keyParam = i
+			}
+		}
+		n, bad := 0, ""
+		for _, b := range fn.Blocks {
+			for _, in := range b.Instrs {
+				st, ok := in.(*ssa.Store)
+				if !ok {
+					continue
+				}
+				fa, ok := st.Addr.(*ssa.FieldAddr)
+				if !ok || fieldNameOf(fa) != "NameKeyID" {
+					continue
+				}
+				n++
+				if keyParam < 0 {
+					bad = "no name key parameter"
+					continue
+				}
+				if ok, why := idIsHashOfKey(p, fn, st.Val, keyParam, 0); !ok {
+					bad = why + " at " + p.InstrPos(st)
+				}
+			}
+		}
+		r.Check(n > 0 && bad == "", R5, shortName(fn)+": request.NameKeyID = SHA-256(nameKey.Marshal()) of the name key argument", p.Pos(fn.Pos()), fmt.Sprintf("%d store(s) followed to the hash of the argument's own encoding", n), firstNonEmpty(bad, "no store to NameKeyID found"))
+	}
 	// the serialized key that is hashed must be the encoding of the key's own
 	// fields: no encoding cache may be seeded from outside Marshal
 	const R6 = "C18.serialization-not-from-a-seeded-cache"
@@ -266,4 +305,85 @@ func sameObject(v, dst ssa.Value) bool {
 		}
 	}
 	return false
+}
+
+func fieldNameOf(fa *ssa.FieldAddr) string {
+	pt, ok := fa.X.Type().Underlying().(*types.Pointer)
+	if !ok {
+		return ""
+	}
+	st, ok := pt.Elem().Underlying().(*types.Struct)
+	if !ok || fa.Field >= st.NumFields() {
+		return ""
+	}
+	return st.Field(fa.Field).Name()
+}
+
+// idIsHashOfKey: value v of fn is SHA-256 of the encoding of fn's parameter
+// keyParam (an EncapKey), possibly obtained through module helpers that are
+// handed that very parameter.
+func idIsHashOfKey(p *Prog, fn *ssa.Function, v ssa.Value, keyParam int, depth int) (bool, string) {
+	if depth > 4 {
+		return false, "helper chain too deep"
+	}
+	s := p.NewSym(fn)
+	want := "hash<sha256>(" + encapKeyEncoding(fmt.Sprintf("param:%d", keyParam)) + ")"
+	got := s.Of(v).String()
+	if got == want {
+		return true, ""
+	}
+	idx := 0
+	var call *ssa.Call
+	switch x := v.(type) {
+	case *ssa.Extract:
+		call, _ = x.Tuple.(*ssa.Call)
+		idx = x.Index
+	case *ssa.Call:
+		call = x
+	case *ssa.Parameter:
+		return false, "the id is parameter " + x.Name() + " of " + shortName(fn) + ", not computed from the key"
+	}
+	if call == nil {
+		return false, "NameKeyID is " + clip(got, 200) + " in " + shortName(fn)
+	}
+	g := call.Call.StaticCallee()
+	if g == nil || g.Blocks == nil || g.Pkg == nil || !strings.HasPrefix(g.Pkg.Pkg.Path(), modPath) {
+		return false, "NameKeyID is " + clip(got, 200) + " in " + shortName(fn)
+	}
+	k2 := -1
+	for i, a := range call.Call.Args {
+		if a == ssa.Value(fn.Params[keyParam]) || s.Of(a).String() == fmt.Sprintf("param:%d", keyParam) {
+			k2 = i
+		}
+	}
+	ff := p.Facts(g)
+	n := 0
+	for _, rp := range ff.RetPoints(verdictIndex(g)) {
+		if rp.Outcome == Fails || idx >= len(rp.Vals) {
+			continue
+		}
+		n++
+		rv := rp.Vals[idx]
+		if pa, ok := rv.(*ssa.Parameter); ok {
+			// handed through: judge what the caller passed
+			for j, gp := range g.Params {
+				if gp == pa {
+					if ok, why := idIsHashOfKey(p, fn, call.Call.Args[j], keyParam, depth+1); !ok {
+						return false, why
+					}
+				}
+			}
+			continue
+		}
+		if k2 < 0 {
+			return false, shortName(g) + " computes the id without being handed the name key"
+		}
+		if ok, why := idIsHashOfKey(p, g, rv, k2, depth+1); !ok {
+			return false, why
+		}
+	}
+	if n == 0 {
+		return false, "no returning path in " + shortName(g)
+	}
+	return true, ""
 }
